@@ -66,7 +66,7 @@ def gen_blocks(R, idx: int) -> Tuple[List[Dict[str, Any]], Dict[str, Any]]:
         for l in blk.get("instance_initialization", []):
             blk.setdefault("private_members", []).append("int " + l.split("(")[0] + ";")
         blocks.append(blk)
-    mode = R.choice(["plain", "plain", "plain", "dup_identical", "dup_conflict", "dup_content_other_name", "unknown_field", "shared_line"]) if nb else "plain"
+    mode = R.choice(["plain", "plain", "plain", "dup_identical", "dup_conflict", "dup_content_other_name", "unknown_field", "shared_line", "same_file_body_and_header"]) if nb else "plain"
     expect_error = None
     if mode == "dup_identical":
         b = R.choice(blocks)
@@ -85,6 +85,13 @@ def gen_blocks(R, idx: int) -> Tuple[List[Dict[str, Any]], Dict[str, Any]]:
         b = R.choice(blocks)
         b[R.choice(["body_include", "includes", "dtor_lines", "Name2"])] = ["x"]
         expect_error = "unknown field"
+    elif mode == "same_file_body_and_header":
+        # one header named both as a source include and as a header include (of the same or of another block): both places get it
+        n += 1
+        line = payload(R, "body_includes", f"T{idx}x{n}", False)
+        b1, b2 = R.choice(blocks), R.choice(blocks)
+        b1["body_includes"] = list(b1.get("body_includes", [])) + [line]
+        b2["header_includes"] = list(b2.get("header_includes", [])) + [line]
     elif mode == "shared_line":
         f = R.choice(FIELDS)
         n += 1
